@@ -6,8 +6,11 @@ import (
 	"context"
 	"net"
 	"net/http"
+	"reflect"
 	"sort"
+	"sync/atomic"
 	"time"
+	"unsafe"
 )
 
 // Verification hooks for C19 (add-only, build tag "verif"; injected with go build -overlay,
@@ -94,7 +97,29 @@ func (v *VerifTransports) Age(d time.Duration) {
 	v.t.transportsMutex.Lock()
 	defer v.t.transportsMutex.Unlock()
 	for _, tr := range v.t.transports {
-		tr.lastUsed.Store(tr.lastUsed.Load().(time.Time).Add(-d))
+		verifShiftLastUsed(tr, d)
+	}
+}
+
+// verifShiftLastUsed works on whatever representation the lastUsed field has (atomic.Value
+// holding a time.Time today), so that a change of representation does not stop the harness
+// from building - the scenarios, not the build, are what must decide.
+func verifShiftLastUsed(tr *destinationTripperTransport, d time.Duration) {
+	f := reflect.ValueOf(tr).Elem().FieldByName("lastUsed")
+	if !f.IsValid() {
+		return
+	}
+	switch x := reflect.NewAt(f.Type(), unsafe.Pointer(f.UnsafeAddr())).Interface().(type) {
+	case *atomic.Value:
+		if t, ok := x.Load().(time.Time); ok {
+			x.Store(t.Add(-d))
+		}
+	case *time.Time:
+		*x = x.Add(-d)
+	case *atomic.Int64:
+		x.Add(-int64(d))
+	case *int64:
+		*x -= int64(d)
 	}
 }
 
